@@ -1,6 +1,6 @@
 (* C09 — the global trapezoidal rule with the modified basis (no boundary points, linear extrapolation):
    weights . values = integral of the extrapolated interpolant; sum and first moment; the self-assert never fires. *)
-From Coq Require Import ZArith List QArith Qcanon Bool Arith Lia Lra Lqa.
+From Coq Require Import ZArith List QArith Qcanon Bool Arith Lia Lqa.
 From SG Require Import Base.QcUtil Model.Trap Proofs.TrapBasics Proofs.Trap.
 Import ListNotations.
 Open Scope Qc_scope.
